@@ -535,16 +535,16 @@ def c07_matrix(cfg_line, seed=1, sample=None):
     keys = []      # (ref, kind)
     for flag in (0, 1):
         f = f"{flag:02x}"
-        sec_flags = f"104={f} 105={f} 108={f} 10a={f}"
+        sec_flags = f"104={f} 105={f} 108={f} 10a={f} 106={f} 107={f} 10c={f}"
         for ln, lt in lists.items():
             for nm, kt, val in (("aes", 0x1f, "0f" * 16), ("des3", 0x15, "0123456789abcdef" * 3), ("des2", 0x14, "0123456789abcdef" * 2),
                                 ("generic", 0x10, "5a" * 64), ("sha256hmac", 0x2b, "5a" * 64), ("sha1hmac", 0x28, "5a" * 64)):
                 i = h.op(f"create @{k} 0={U(4)} 100={U(kt)} 3={hx(h.new_label())} 11={val} {sec_flags}{lt}"); h.minted += 1
                 keys.append((f"@{i}", nm))
-            pub = f"104={f} 10a={f}"; prv = f"105={f} 108={f}"
+            pub = f"104={f} 10a={f} 106={f}"; prv = f"105={f} 108={f} 107={f} 10c={f}"
             i = h.op(f"genpair @{k} 0 121={U(1024)} 122=010001 3={hx(h.new_label())} {pub}{lt} / 3={hx(h.new_label())} {prv} 2=01{lt}"); h.minted += 2
             keys += [(f"@{i}", "rsapub"), (f"@{i}.1", "rsapriv")]
-            i = h.op(f"genpair @{k} 1040 180={P256} 3={hx(h.new_label())} 10a={f}{lt} / 3={hx(h.new_label())} 108={f} 2=01{lt}"); h.minted += 2
+            i = h.op(f"genpair @{k} 1040 180={P256} 3={hx(h.new_label())} 10a={f}{lt} / 3={hx(h.new_label())} 108={f} 10c={f} 2=01{lt}"); h.minted += 2
             keys += [(f"@{i}", "ecpub"), (f"@{i}.1", "ecpriv")]
             i = h.op(f"genpair @{k} 1055 180={ED25519} 3={hx(h.new_label())} 10a={f}{lt} / 3={hx(h.new_label())} 108={f} 2=01{lt}"); h.minted += 2
             keys += [(f"@{i}", "edpub"), (f"@{i}.1", "edpriv")]
@@ -553,6 +553,21 @@ def c07_matrix(cfg_line, seed=1, sample=None):
     for opn, key, m in cells:
         s = h.op(f"open t:{hx(t.label)} 6"); h.minted += 1
         h.op(f"{opn} @{s} {m:x}{MECH_PARAM.get(m, '')} {key}")
+        h.op(f"close @{s}")
+    # C_WrapKey / C_UnwrapKey / C_DeriveKey: the same keys as wrapping / unwrapping / base key, every mechanism those calls dispatch on and some they do not
+    tgt = h.op(f"create @{k} 0={U(4)} 100={U(0x1f)} 3={hx(h.new_label())} 11={'3c' * 16} 162=01 103=00"); h.minted += 1
+    blob = "1fa68b0a8112b447aef34bd8fb5a7b829d3e862371d2cfe5"
+    ptQ = p256_mul(7, P256_G); pt = "04" + ptQ[0].to_bytes(32, "big").hex() + ptQ[1].to_bytes(32, "big").hex()
+    wmechs = ["2109", "210a", f"1085:{'00' * 16}", f"1082:{'00' * 16}", "1", "9:oaep(220,1,)", "1081", "136:" + "00" * 8, "999"]
+    dmechs = [f"1104:str({'11' * 16})", f"1105:cbcd({'00' * 16},{'11' * 16})", f"362:str({'11' * 4})", f"363:str({'11' * 4})", f"21:{'02' * 128}", f"1050:ecdh(1,{pt})",
+              f"1102:str({'11' * 8})", "1081", "999"]
+    cells2 = [("wrap", key, m) for key, _ in keys for m in wmechs] + [("unwrap", key, m) for key, _ in keys for m in wmechs] + [("derive", key, m) for key, _ in keys for m in dmechs]
+    if sample is not None: cells2 = rng.sample(cells2, min(sample // 3, len(cells2)))
+    for opn, key, m in cells2:
+        s = h.op(f"open t:{hx(t.label)} 6"); h.minted += 1
+        if opn == "wrap": h.op(f"wrap @{s} {m} {key} @{tgt} 600")
+        elif opn == "unwrap": h.op(f"unwrap @{s} {m} {key} {blob} 0={U(4)} 100={U(0x10)} 3={hx(h.new_label())}"); h.minted += 1
+        else: h.op(f"derive @{s} {m} {key} 0={U(4)} 100={U(0x10)} 161={U(4)} 3={hx(h.new_label())}"); h.minted += 1
         h.op(f"close @{s}")
     # the entry points without a key
     for m in sorted(set(ALL_START_MECHS + [0x210, 0x220, 0x255, 0x250, 0x260, 0x270, 0x130, 0x131, 0x350, 0x0, 0x1040, 0x1055, 0x10, 0x2000])):
@@ -967,5 +982,140 @@ def enc_history(seed, tables, nops=30, umask=None):
                 h.op(f"login @{k2} 1 {hxb(t2.user.encode('latin1')) if isinstance(t2.user, str) else hxb(t2.user)}"); t2.login = 'user'
                 h.refind(k2, t2)
         h.op("dumpdir")
+    h.op("fini")
+    return h.text()
+
+
+# ---------------------------------------------------------------------------------------------------------
+# C13: wrap / unwrap / derive with keys whose values the model knows
+# ---------------------------------------------------------------------------------------------------------
+P256_P = 0xffffffff00000001000000000000000000000000ffffffffffffffffffffffff
+P256_A = P256_P - 3
+P256_G = (0x6b17d1f2e12c4247f8bce6e563a440f277037d812deb33a0f4a13945d898c296, 0x4fe342e2fe1a7f9b8ee7eb4a7c0f9e162bce33576b315ececbb6406837bf51f5)
+OAKLEY2 = int("FFFFFFFFFFFFFFFFC90FDAA22168C234C4C6628B80DC1CD129024E088A67CC74020BBEA63B139B22514A08798E3404DDEF9519B3CD3A431B302B0A6DF25F14374FE1356D6D51C245"
+              "E485B576625E7EC6F44C42E9A637ED6B0BFF5CB6F406B7EDEE386BFB5A899FA5AE9F24117C4B1FE649286651ECE65381FFFFFFFFFFFFFFFF", 16)
+
+
+def p256_add(P, Q):
+    if P is None: return Q
+    if Q is None: return P
+    (x1, y1), (x2, y2) = P, Q
+    if x1 == x2 and (y1 + y2) % P256_P == 0: return None
+    l = ((3 * x1 * x1 + P256_A) * pow(2 * y1, -1, P256_P) if P == Q else (y2 - y1) * pow(x2 - x1, -1, P256_P)) % P256_P
+    x3 = (l * l - x1 - x2) % P256_P
+    return (x3, (l * (x1 - x3) - y1) % P256_P)
+
+
+def p256_mul(k, P):
+    R = None
+    while k:
+        if k & 1: R = p256_add(R, P)
+        P = p256_add(P, P); k >>= 1
+    return R
+
+
+def wrap_history(seed, nops=40):
+    rng = random.Random(seed)
+    h = OpsGen(rng)
+    h.prologue(1)
+    t = h.toks[0]
+    k = h.open(t, True); h.login(k, t, 'user')
+    U = ul
+    rb = lambda n: bytes(rng.randrange(256) for _ in range(n)).hex()
+    keks = []
+    for n in (16, 24, 32):
+        i = h.op(f"create @{k} 0={U(4)} 100={U(0x1f)} 3={hx(h.new_label())} 11={rb(n)} 106=01 107=01 104=01 105=01 10c=01 162=01 103=00"); keks.append(i)
+    nowrap = h.op(f"create @{k} 0={U(4)} 100={U(0x1f)} 3={hx(h.new_label())} 11={rb(16)} 106=00 107=00 162=01 103=00")
+    targets = []      # (ref, key type, length)
+    for kt, n in [(0x1f, 16), (0x1f, 24), (0x1f, 32), (0x10, 1), (0x10, 7), (0x10, 8), (0x10, 15), (0x10, 16), (0x10, 20), (0x10, 33), (0x10, 64), (0x15, 24), (0x14, 16)]:
+        val = rb(n) if kt in (0x1f, 0x10) else ("0123456789abcdef" * 3)[:2 * n]
+        i = h.op(f"create @{k} 0={U(4)} 100={U(kt)} 3={hx(h.new_label())} 11={val} 162=01 103=00 10c=01"); targets.append((i, kt, n))
+    unext = h.op(f"create @{k} 0={U(4)} 100={U(0x1f)} 3={hx(h.new_label())} 11={rb(16)} 162=00")
+    rsa = h.op(f"genpair @{k} 0 121={U(1024)} 122=010001 3={hx(h.new_label())} 106=01 104=01 / 3={hx(h.new_label())} 107=01 105=01 2=01")
+    ecx = h.op(f"genpair @{k} 1040 180={P256} 3={hx(h.new_label())} 10a=01 / 3={hx(h.new_label())} 108=01 2=01 162=01 103=00")
+    # an EC private key and a DH private key with values the model knows
+    d = rng.randrange(1, 2**255)
+    ecd = h.op(f"create @{k} 0={U(3)} 100={U(3)} 3={hx(h.new_label())} 180={P256} 11={d.to_bytes(32, 'big').hex()} 10c=01 2=01 103=00 162=01")
+    x = rng.randrange(2, 2**160)
+    dh = h.op(f"create @{k} 0={U(3)} 100={U(2)} 3={hx(h.new_label())} 130={OAKLEY2.to_bytes(128, 'big').hex()} 132=02 11={x.to_bytes(20, 'big').hex()} 10c=01 2=01 103=00 162=01")
+    # base keys made ON the token (C_GenerateKey): CKA_ALWAYS_SENSITIVE / CKA_NEVER_EXTRACTABLE can be true only for these
+    genbases = []
+    for sens, extr in (("01", "00"), ("01", "01"), ("00", "00"), ("00", "01")):
+        i = h.op(f"genkey @{k} 1080 3={hx(h.new_label())} 161={U(16)} 103={sens} 162={extr} 10c=01 104=01"); h.minted += 1; genbases.append(i)
+    blobs = []        # (wrap op index, mech token, kek ref, key type, length)
+    ivs = lambda: rb(16)
+    def tpl(kt, n=None, priv=None, extra=""):
+        s_ = f"0={U(4)} 100={U(kt)} 3={hx(h.new_label())} 162=01 103=00"
+        if priv is not None: s_ += f" 2={priv}"
+        return s_ + extra
+    for _ in range(nops):
+        r = rng.random()
+        if r < 0.30:      # wrap a secret key under an AES key
+            kek = rng.choice(keks + ([nowrap] if rng.random() < 0.1 else []))
+            tg, kt, n = rng.choice(targets + ([(unext, 0x1f, 16)] if rng.random() < 0.1 else []))
+            mech = rng.choice(["2109", "210a", f"1085:{ivs()}", f"1082:{ivs()}", "2109:" + "00" * 8, "1085", "1081", "1"])
+            w = h.op(f"wrap @{k} {mech} @{kek} @{tg} n")
+            need = 8 * ((n + 7) // 8) + 16
+            h.op(f"wrap @{k} {mech} @{kek} @{tg} {rng.choice([0, 7, need - 9])}")
+            w = h.op(f"wrap @{k} {mech} @{kek} @{tg} 600")
+            if mech.split(":")[0] in ("2109", "210a", "1085"): blobs.append((w, mech, kek, kt, n))
+        elif r < 0.55 and blobs:      # unwrap what was wrapped (sometimes with another template / key / mechanism)
+            w, mech, kek, kt, n = rng.choice(blobs)
+            kek2 = kek if rng.random() < 0.85 else rng.choice(keks)
+            mech2 = mech if rng.random() < 0.9 else rng.choice(["2109", "210a", f"1085:{ivs()}"])
+            u = h.op(f"unwrap @{k} {mech2} @{kek2} blob:@{w} {tpl(kt, n, rng.choice([None, '00', '01']))}"); h.minted += 1
+            h.op(f"getattr @{k} @{u} 0:8 100:8 11:600 161:8 163:1 164:1 165:1 162:1 103:1 2:1")
+            h.op(f"kcv @{k} @{u}")
+        elif r < 0.70 and blobs:      # damaged blobs: nothing may be created
+            w, mech, kek, kt, n = rng.choice(blobs)
+            mut = rng.choice(["trunc=0", "trunc=8", "trunc=16", "drop=1", "drop=8", "drop=16", f"flip={rng.randrange(64)}", f"flip={rng.randrange(64)}", "append=00", "append=" + "00" * 8])
+            h.op(f"findinit @{k} 0={U(4)}"); h.minted += 40; h.op(f"find @{k} 200"); h.op(f"findfinal @{k}")
+            u = h.op(f"unwrap @{k} {mech} @{kek} blob:@{w},{mut} {tpl(kt, n)}"); h.minted += 1
+            h.op(f"findinit @{k} 0={U(4)}"); h.minted += 40; h.op(f"find @{k} 200"); h.op(f"findfinal @{k}")
+            h.op(f"kcv @{k} @{u}")
+        elif r < 0.78:      # asymmetric: RSA wrapping of secret keys, AES wrapping of an EC private key (PKCS#8) — round trips
+            if rng.random() < 0.5:
+                tg, kt, n = rng.choice([x_ for x_ in targets if x_[2] <= 64])
+                mech = rng.choice(["1", "9:oaep(220,1,)"])
+                w = h.op(f"wrap @{k} {mech} @{rsa} @{tg} 600")
+                u = h.op(f"unwrap @{k} {mech} @{rsa}.1 blob:@{w} {tpl(kt, n)}"); h.minted += 1
+                h.op(f"getattr @{k} @{u} 11:600 163:1 164:1 165:1"); h.op(f"getattr @{k} @{tg} 11:600")
+            else:
+                kek = rng.choice(keks); mech = rng.choice(["210a", f"1085:{ivs()}"])
+                w = h.op(f"wrap @{k} {mech} @{kek} @{ecx}.1 600")
+                u = h.op(f"unwrap @{k} {mech} @{kek} blob:@{w} 0={U(3)} 100={U(3)} 3={hx(h.new_label())} 108=01 103=00 162=01"); h.minted += 1
+                h.op(f"getattr @{k} @{u} 180:64 11:64 163:1 164:1 165:1"); h.op(f"getattr @{k} @{ecx}.1 180:64 11:64")
+        else:               # derive
+            c = rng.random()
+            kt, ln = rng.choice([(0x10, rng.choice([1, 8, 16, 20, 32, 48, 100, 128, 129])), (0x1f, 16), (0x1f, 24), (0x1f, 32), (0x1f, 20), (0x15, 0), (0x14, 0), (0x13, 0)])
+            vlen = f" 161={U(ln)}" if ln else ""
+            flags = rng.choice(["162=01 103=00", "162=01 103=00", "162=00 103=01", "162=01 103=01", "162=00 103=00", ""])
+            if c < 0.25:
+                base = rng.choice(keks + genbases); data = rb(rng.choice([16, 32, 48, 8, 0]))
+                mech = f"1104:str({data or '.'})" if rng.random() < 0.5 else f"1105:cbcd({ivs()},{data or '.'})"
+                u = h.op(f"derive @{k} {mech} @{base} 0={U(4)} 100={U(kt)} 3={hx(h.new_label())} {flags}{vlen}")
+            elif c < 0.5:
+                base = rng.choice([x_[0] for x_ in targets] + genbases); data = rb(rng.choice([1, 8, 20, 0]))
+                u = h.op(f"derive @{k} {rng.choice(['362', '363'])}:str({data or '.'}) @{base} 3={hx(h.new_label())} {flags}" + (f" 0={U(4)} 100={U(kt)}{vlen}" if rng.random() < 0.6 else ""))
+            elif c < 0.75:
+                # peers g^i; every third one is searched for a shared secret with a leading zero octet
+                while True:
+                    i = rng.randrange(2, 5000); y = pow(2, i, OAKLEY2); z = pow(y, x, OAKLEY2)
+                    if rng.random() < 0.5 or z < 2 ** 1016: break
+                u = h.op(f"derive @{k} 21:{y.to_bytes(128, 'big').hex()} @{dh} 0={U(4)} 100={U(kt)} 3={hx(h.new_label())} 162=01 103=00{vlen}")
+            else:
+                Q = p256_mul(rng.randrange(1, 2**255), P256_G)
+                pt = "04" + Q[0].to_bytes(32, "big").hex() + Q[1].to_bytes(32, "big").hex()
+                cc = rng.random()
+                if cc < 0.15: pt = pt[:-2] + f"{(int(pt[-2:], 16) ^ 1):02x}"       # not on the curve
+                elif cc < 0.3: pt = "0441" + pt                                       # DER octet string
+                u = h.op(f"derive @{k} 1050:ecdh(1,{pt}) @{ecd} 0={U(4)} 100={U(kt)} 3={hx(h.new_label())} 162=01 103=00{vlen}")
+            if rng.random() < 0.15:       # CKM_CONCATENATE_BASE_AND_KEY: the history attributes combine those of BOTH keys
+                b1 = rng.choice(keks + genbases + [x_[0] for x_ in targets]); b2 = rng.choice(keks + genbases + [x_[0] for x_ in targets])
+                u = h.op(f"derive @{k} 360:obj(@{b2}) @{b1} 3={hx(h.new_label())} {flags}" + (f" 0={U(4)} 100={U(0x10)} 161={U(rng.choice([8, 16, 40]))}" if rng.random() < 0.5 else ""))
+            h.minted += 1
+            h.op(f"getattr @{k} @{u} 0:8 100:8 11:600 163:1"); h.op(f"getattr @{k} @{u} 103:1 162:1 164:1 165:1"); h.op(f"kcv @{k} @{u}")
+            # whatever the outcome, the secret keys of the token are counted
+            h.op(f"findinit @{k} 0={U(4)}"); h.minted += 60; h.op(f"find @{k} 300"); h.op(f"findfinal @{k}")
     h.op("fini")
     return h.text()
